@@ -29,6 +29,10 @@ ASSUMPTIONS = ["healpy.query_disc/query_polygon(inclusive=True) return a "
                "healpy angle conventions (colatitude, longitude in radians)"]
 
 MUTANTS = [
+    ("cache cleared in place while it aliases the level set",
+     "AegeanTools/regions.py",
+     "        self.demoted = set()\n\n    def get_area",
+     "        self.demoted.clear()\n\n    def get_area", "C09-R7"),
     ("swap theta/phi", "AegeanTools/regions.py",
      "pix = hp.ang2pix(2**self.maxdepth, theta, phi, nest=True)",
      "pix = hp.ang2pix(2**self.maxdepth, phi, theta, nest=True)", "C09-R2"),
@@ -157,8 +161,12 @@ def run(ctx):
     # ---------------------------------------------------------------- R5
     ctx.rule("C09-R5", "membership queries flatten every stored level "
              "(1..maxdepth-1) into the deepest one")
-    from .c08 import demotion_levels
+    from .c08 import demotion_levels, r9_cache_alias
     demotion_levels(ctx, ci, "C09-R5")
+    # ---------------------------------------------------------------- R7
+    # the pixels a circle / polygon stored survive later additions: the
+    # flattened cache may BE the deepest level set (shared with C08-R9)
+    r9_cache_alias(ctx, ci, "C09-R7")
     # ---------------------------------------------------------------- R3
     sw, g, rets, rname = nonfinite_rule(ctx, prog, ci, "C09-R3")
     # ---------------------------------------------------------------- R6
